@@ -90,7 +90,7 @@ def c02(r):
     f = p.future()
     ok_done = f.done() and not f.cancelled()
     if label == 'finished':
-        if not (ok_done and f.exception() is None and f.result() is p.outputs):
+        if not (ok_done and f.exception() is None and (f.result() is p.outputs or f.result() == p.outputs)):
             out.append(F('c02-future-finished', 'FINISHED: the future resolves to the outputs', repr(f)))
         last = p._trace[-1][0] if p._trace else None
         oc = r.prog['fns'].get(last, (0, None))[1] if last is not None else None
